@@ -16,6 +16,7 @@ import (
 	"reflect"
 	"regexp"
 	"sort"
+	"strings"
 	"time"
 
 	"github.com/ClickHouse/clickhouse-go/v2/lib/driver"
@@ -85,6 +86,15 @@ type Case struct {
 	// The fake stamps a settings row with the clock truncated to the second for NOW() and with the full clock for
 	// now64(9), and a read returns the value of the row with the greatest stamp, the FIRST inserted among equals.
 	TickNS int64 `json:"tick_ns"`
+	// Clock: "" = the clock advances by the tick BEFORE every statement; otherwise the time a statement takes is added
+	// AFTER it: "sel-alt" = a tick for every SELECT and ALTER that was executed, nothing for an INSERT or a failed
+	// statement (the hypothesis clock_advances of model/RotateStamp.v, at its boundary); "alt" = a tick for every ALTER
+	// only; "sel" = a tick for every SELECT only (the two witnesses of nondecreasing_clock_is_not_enough).
+	Clock string `json:"clock,omitempty"`
+	// LastFrom > 0: from that statement of the history on, the LAST inserted row wins a tie instead of the first.
+	LastFrom int `json:"last_from,omitempty"`
+	// GapNS: time between two runs
+	GapNS int64 `json:"gap_ns,omitempty"`
 }
 
 // ---------------------------------------------------------------- fake connection
@@ -114,6 +124,10 @@ type fake struct {
 	log      []Call
 	fault    *Fault
 	n        int
+	mode     string // Case.Clock
+	pending  int64  // time the statement being executed takes (added when it ends)
+	total    int    // statements of the whole history
+	lastFrom int    // Case.LastFrom
 }
 
 func newFake() *fake {
@@ -130,6 +144,7 @@ func (f *fake) clone() *fake {
 		g.rows[k] = append([]srow{}, v...)
 	}
 	g.clock, g.tick = f.clock, f.tick
+	g.mode, g.total, g.lastFrom = f.mode, f.total, f.lastFrom
 	for k, v := range f.tables {
 		g.tables[k] = &tst{v.ttl, v.policy}
 	}
@@ -166,8 +181,26 @@ func toArgs(args []any) []Arg {
 func (f *fake) begin(q bool, sql string, args []any) (fail bool, effect bool) {
 	idx := f.n
 	f.n++
-	f.clock += f.tick
+	f.total++
 	fail = f.fault != nil && f.fault.At == idx
+	isAlter := !q && strings.HasPrefix(sql, "ALTER")
+	f.pending = 0
+	switch f.mode {
+	case "":
+		f.clock += f.tick
+	case "sel-alt":
+		if (q || isAlter) && !fail {
+			f.pending = f.tick
+		}
+	case "alt":
+		if isAlter {
+			f.pending = f.tick
+		}
+	case "sel":
+		if q {
+			f.pending = f.tick
+		}
+	}
 	effect = !fail || f.fault.Eff
 	f.log = append(f.log, Call{Q: q, SQL: sql, Args: toArgs(args), OK: !fail})
 	return
@@ -175,8 +208,11 @@ func (f *fake) begin(q bool, sql string, args []any) (fail bool, effect bool) {
 
 var errInjected = errors.New("injected fault")
 
+func (f *fake) end() { f.clock += f.pending; f.pending = 0 }
+
 func (f *fake) Exec(ctx context.Context, query string, args ...any) error {
 	fail, effect := f.begin(false, query, args)
+	defer f.end()
 	if effect {
 		f.apply(query, args)
 	}
@@ -242,6 +278,7 @@ func (r *rows) Err() error                       { return nil }
 
 func (f *fake) Query(ctx context.Context, query string, args ...any) (driver.Rows, error) {
 	fail, _ := f.begin(true, query, args)
+	defer f.end()
 	if fail {
 		return nil, errInjected
 	}
@@ -263,8 +300,9 @@ func (f *fake) read(fp uint32) (srow, bool) {
 		return srow{}, false
 	}
 	best := rs[0]
+	last := f.lastFrom > 0 && f.total > f.lastFrom // f.total counts the statement being executed
 	for _, r := range rs[1:] {
-		if r.ts > best.ts {
+		if r.ts > best.ts || (last && r.ts == best.ts) {
 			best = r
 		}
 	}
@@ -338,6 +376,7 @@ func runCase(c *Case) {
 	if c.TickNS > 0 {
 		f.tick = c.TickNS
 	}
+	f.mode, f.lastFrom = c.Clock, c.LastFrom
 	for _, t := range c.InitT {
 		if x, ok := f.tables[t.Name]; ok {
 			x.ttl, x.policy = t.TTL, t.Policy
@@ -350,6 +389,7 @@ func runCase(c *Case) {
 		if r.Cfg.Days == nil {
 			r.Cfg.Days = []Policy{}
 		}
+		f.clock += c.GapNS
 		if r.Glue != nil {
 			r.Log, r.Err, r.Panic = glueOnce(f, r.Glue, r.Fault)
 		} else {
@@ -688,6 +728,17 @@ func main() {
 		}
 		for i := range cs {
 			cs[i].TickNS = genTick(r)
+			if cs[i].Conc == nil && r.Intn(3) == 0 {
+				// the boundary of the clock hypothesis: only executed SELECTs and ALTERs take time; ties resolved either way
+				cs[i].Clock = "sel-alt"
+				cs[i].Class += "+insert-takes-no-time"
+				if r.Intn(2) == 0 {
+					cs[i].LastFrom = 1 + r.Intn(80)
+				}
+				if r.Intn(3) == 0 {
+					cs[i].GapNS = []int64{1, 1000000, 3000000000}[r.Intn(3)]
+				}
+			}
 			runCase(&cs[i])
 			runs += len(cs[i].Runs)
 			out.Put(cs[i])
